@@ -730,12 +730,17 @@ def _cycle_shapes_failures():
     work = tempfile.mkdtemp(prefix='redo-verif-cyc.', dir='/var/tmp')
     fails, n = [], 0
     try:
-        for k in (2, 3):
+        shapes = [(k, stamped, entry, j, None) for k in (2, 3) for stamped in ('none', 'first', 'all') for entry in ['top'] + ['t%d' % i for i in range(k)] for j in (1, 4)]
+        # the top-level command started with a REDO_CYCLES that is set but names nobody: empty, or with an empty item (the
+        # value apenwarr's redo writes always carries one)
+        shapes += [(2, 'none', entry, j, cyc) for cyc in ('', ':999983', '999983:') for entry in ('top', 't0', 't1') for j in (1, 4)]
+        for k, stamped, entry, j, cyc in shapes:
             names = ['t%d' % i for i in range(k)]
-            for stamped in ('none', 'first', 'all'):
-                for entry in ['top'] + names:
-                    for j in (1, 4):
+            if True:
+                if True:
+                    if True:
                         n += 1
+                        env_ = env if cyc is None else dict(env, REDO_CYCLES=cyc)
                         proj = os.path.join(work, 'p%d' % n)
                         os.makedirs(proj)
 
@@ -754,14 +759,14 @@ def _cycle_shapes_failures():
                         open(os.path.join(proj, 'top.do'), 'w').write('redo-ifchange side t0\necho top\n')
                         open(os.path.join(proj, 'side.do'), 'w').write('echo side\n')
                         open(os.path.join(proj, 'src'), 'w').write('one\n')
-                        r = subprocess.run(['redo', '--no-log', 'top'], cwd=proj, env=env, capture_output=True, text=True, timeout=60)
+                        r = subprocess.run(['redo', '--no-log', 'top'], cwd=proj, env=env_, capture_output=True, text=True, timeout=60)
                         if r.returncode != 0:
                             continue
                         open(os.path.join(proj, names[k - 1] + '.do'), 'w').write(script(k - 1, True))
                         open(os.path.join(proj, 'src'), 'w').write('two, longer\n')
-                        hist = 'chain of %d, redo-stamp before the dependency in: %s; built once; %s.do now asks for t0; src edited; redo -j%d %s' % (k, stamped, names[k - 1], j, entry)
+                        hist = 'chain of %d, redo-stamp before the dependency in: %s; built once; %s.do now asks for t0; src edited; %sredo -j%d %s' % (k, stamped, names[k - 1], '' if cyc is None else 'REDO_CYCLES=%r ' % cyc, j, entry)
                         try:
-                            r = subprocess.run(['redo', '--no-log', '-j%d' % j, entry], cwd=proj, env=env, capture_output=True, text=True, timeout=20)
+                            r = subprocess.run(['redo', '--no-log', '-j%d' % j, entry], cwd=proj, env=env_, capture_output=True, text=True, timeout=20)
                             if r.returncode == 0:
                                 fails.append(dict(input=hist, observed='exit 0', clause='a build that runs into a dependency cycle ends with a non-zero status'))
                         except subprocess.TimeoutExpired:
@@ -1289,9 +1294,9 @@ def conformance(prop, unit_names, pins_changed, labels_props):
         r = _cycle_shapes_failures()
         if r and r[0]:
             hits = r[0]
-            out.append(dict(oid='gluebins/ifchange_build/ifchange.every_argument_goes_through_the_builder', msg='clause fails on the real binaries for a concrete history (bounded probe cycle-shapes, %d histories)' % r[1],
+            out.append(dict(oid='locks/check/cycles.check_detects_ancestor', msg='clause fails on the real binaries for a concrete history (bounded probe cycle-shapes, %d histories)' % r[1],
                             where=REPO + '/src/bin/redo/ifchange.rs:run', site=None, text=hits[0]['clause'], rendered=json.dumps(hits[:6], indent=1), inputs=[h['input'] for h in hits],
-                            fn='ifchange_build', label='ifchange.every_argument_goes_through_the_builder', props=['C12']))
+                            fn='check', label='cycles.check_detects_ancestor', props=['C12']))
     if 'gluebins' in unit_names and prop == 'C14':
         r = _ifcreate_args_failures()
         if r and r[0]:
@@ -1394,7 +1399,7 @@ def bounded(prop, unit_names, labels_props):
         if prop in ('C10', 'C09', 'C18'):
             extra.append(('lost-reader', _lost_reader_failures, 'logs/rawlog_write_line/rawlog.a_failed_write_is_not_fatal', lambda h: True))
         if prop == 'C12':
-            extra.append(('cycle-shapes', _cycle_shapes_failures, 'gluebins/ifchange_build/ifchange.every_argument_goes_through_the_builder', lambda h: True))
+            extra.append(('cycle-shapes', _cycle_shapes_failures, 'locks/check/cycles.check_detects_ancestor', lambda h: True))
         if prop in ('C09', 'C07', 'C15'):
             extra.append(('same-target-twice', _same_target_twice_failures, 'sched/run_body/run.first_pass_dedupes_by_id' if prop != 'C09' else 'sched/run_body/lock_new.registry_free', lambda h: (h['prop'] == 'C09') == (prop == 'C09')))
         if prop in ('C05', 'C13'):
